@@ -91,17 +91,17 @@ fn tall(cx: &Ctx, check_span: bool, check_groups: bool) -> Tally {
         alphabet: vec![],
         max_len: 0,
         text_list: Some(refsweep::tall_texts(if cx.quick() { 32 } else { 64 })),
-        offset0_only: true, letter_names: false,
+        offset0_only: true, letter_names: false, casei: false,
     };
     refsweep::run(cx, &space, &cfg)
 }
 
 pub fn run_c01(cx: &Ctx) -> i32 {
     let (space, alphabet, max_len) = c01_space(cx);
-    let cfg = RefCfg { check_span: true, check_groups: false, check_is_match: true, need_scoped: true, filter: None, shadow: false, alphabet: alphabet.clone(), max_len, text_list: None, offset0_only: false, letter_names: false };
+    let cfg = RefCfg { check_span: true, check_groups: false, check_is_match: true, need_scoped: true, filter: None, shadow: false, alphabet: alphabet.clone(), max_len, text_list: None, offset0_only: false, letter_names: false, casei: false };
     let mut t = refsweep::run(cx, &space, &cfg);
     let (lspace, lalpha, llen) = long_text_space(cx);
-    let lcfg = RefCfg { alphabet: lalpha, max_len: llen, ..RefCfg { check_span: true, check_groups: false, check_is_match: true, need_scoped: true, filter: None, shadow: false, alphabet: vec![], max_len: 0 , text_list: None, offset0_only: false, letter_names: false} };
+    let lcfg = RefCfg { alphabet: lalpha, max_len: llen, ..RefCfg { check_span: true, check_groups: false, check_is_match: true, need_scoped: true, filter: None, shadow: false, alphabet: vec![], max_len: 0 , text_list: None, offset0_only: false, letter_names: false, casei: false} };
     let t2 = refsweep::run(cx, &lspace, &lcfg);
     t.count("long_text_sweep_programs", t2.programs);
     t.count("long_text_sweep_evaluations", t2.evaluations);
@@ -110,6 +110,14 @@ pub fn run_c01(cx: &Ctx) -> i32 {
     t.count("tall_sweep_programs", t3.programs);
     t.count("tall_sweep_evaluations", t3.evaluations);
     t.merge(t3);
+    // fifth sweep: case-insensitive mode. The engine runs (?i)P, the reference runs P with every
+    // letter spelled as the class of both cases, on texts over [a, A, b]
+    let cspace = Space::new().exh("core", space::fancy_grammar(space::core_atoms()), if cx.quick() { 3 } else { 4 }).ctxfill(2, 1, &|_| true);
+    let ccfg = RefCfg { casei: true, alphabet: vec!['a', 'A', 'b'], max_len: 3, ..RefCfg { check_span: true, check_groups: false, check_is_match: true, need_scoped: true, filter: None, shadow: false, alphabet: vec![], max_len: 0, text_list: None, offset0_only: false, letter_names: false, casei: false } };
+    let t5 = refsweep::run(cx, &cspace, &ccfg);
+    t.count("case_insensitive_sweep_programs", t5.programs);
+    t.count("case_insensitive_sweep_evaluations", t5.evaluations);
+    t.merge(t5);
     let (dense, top) = if cx.quick() { (1100, 70_000) } else { (4200, 300_000) };
     let t4 = counts::sweep(counts::Which::C01, dense, top);
     t.count("large_count_sweep_programs", t4.programs);
@@ -120,7 +128,7 @@ pub fn run_c01(cx: &Ctx) -> i32 {
         t,
         Finish {
             rule: format!(
-                "every pattern of {} (scoped references) x every text over {:?} up to length {} x every char-boundary start offset, plus a second sweep of a smaller space (node bound 3 quick / 4 thorough, with {{3}}, {{0,2}}?, {{3,}} repeats, and the contexts) over all texts over [a,b] up to length 5 quick / 6 thorough, and a third 'tall' sweep of every context x one-node fillers over long regular texts (a^n, a^n b, b a^n, (ab)^n, a^n e-acute for n up to 32 quick / 64 thorough) from offset 0; captures_from_pos (and is_match at offset 0) on the real crate versus the reference matcher; non-trivial = the pattern is compiled to a VM program and the reference finds a match or has to try more than one start position; cases in which the reference takes an empty optional iteration of an unbounded repeat (class F1) are outside its domain and skipped (counted); plus a {}",
+                "every pattern of {} (scoped references) x every text over {:?} up to length {} x every char-boundary start offset, plus a second sweep of a smaller space (node bound 3 quick / 4 thorough, with {{3}}, {{0,2}}?, {{3,}} repeats, and the contexts) over all texts over [a,b] up to length 5 quick / 6 thorough, and a third 'tall' sweep of every context x one-node fillers over long regular texts (a^n, a^n b, b a^n, (ab)^n, a^n e-acute for n up to 32 quick / 64 thorough) from offset 0; captures_from_pos (and is_match at offset 0) on the real crate versus the reference matcher; non-trivial = the pattern is compiled to a VM program and the reference finds a match or has to try more than one start position; cases in which the reference takes an empty optional iteration of an unbounded repeat (class F1) are outside its domain and skipped (counted); plus a case-insensitive sweep: (?i)P on the engine against P with every letter spelled as the class of both cases on the reference, EXH(core, 3 quick / 4 thorough) + all contexts x fillers(2) x texts over [a,A,b] up to length 3; plus a {}",
                 space.describe(), alphabet, max_len, counts::describe(counts::Which::C01, dense, top)
             ),
             exhaustive: true,
@@ -140,10 +148,10 @@ pub fn run_c02(cx: &Ctx) -> i32 {
     fn has_group(_n: &Node, f: &Facts) -> bool {
         f.n_groups >= 1
     }
-    let cfg = RefCfg { check_span: false, check_groups: true, check_is_match: false, need_scoped: true, filter: Some(has_group), shadow: false, alphabet: alphabet.clone(), max_len, text_list: None, offset0_only: false, letter_names: false };
+    let cfg = RefCfg { check_span: false, check_groups: true, check_is_match: false, need_scoped: true, filter: Some(has_group), shadow: false, alphabet: alphabet.clone(), max_len, text_list: None, offset0_only: false, letter_names: false, casei: false };
     let mut t = refsweep::run(cx, &space, &cfg);
     let (lspace, lalpha, llen) = long_text_space(cx);
-    let lcfg = RefCfg { check_span: false, check_groups: true, check_is_match: false, need_scoped: true, filter: Some(has_group), shadow: false, alphabet: lalpha, max_len: llen , text_list: None, offset0_only: false, letter_names: false};
+    let lcfg = RefCfg { check_span: false, check_groups: true, check_is_match: false, need_scoped: true, filter: Some(has_group), shadow: false, alphabet: lalpha, max_len: llen , text_list: None, offset0_only: false, letter_names: false, casei: false};
     let t2 = refsweep::run(cx, &lspace, &lcfg);
     t.count("long_text_sweep_programs", t2.programs);
     t.count("long_text_sweep_evaluations", t2.evaluations);
@@ -183,6 +191,7 @@ pub fn run_c15(cx: &Ctx) -> i32 {
         Node::Backref(1),
         Node::CondExists(1),
     ];
+    atoms.push(Node::Assert(frmc_core::ast::A::Start));
     if !cx.quick() {
         atoms.push(Node::Assert(frmc_core::ast::A::WordB));
     }
@@ -192,11 +201,11 @@ pub fn run_c15(cx: &Ctx) -> i32 {
     let space = Space::new().exh("cond", space::cond_grammar(atoms), k).ctxfill(3, 1, &|c| c.name.contains("(?("));
     let alphabet = if cx.quick() { vec!['a', 'b', '\n'] } else { vec!['a', 'b', 'c', '\n'] };
     let max_len = 3;
-    let cfg = RefCfg { check_span: true, check_groups: true, check_is_match: false, need_scoped: true, filter: Some(has_cond), shadow: false, alphabet: alphabet.clone(), max_len, text_list: None, offset0_only: false, letter_names: false };
+    let cfg = RefCfg { check_span: true, check_groups: true, check_is_match: false, need_scoped: true, filter: Some(has_cond), shadow: false, alphabet: alphabet.clone(), max_len, text_list: None, offset0_only: false, letter_names: false, casei: false };
     let mut t = refsweep::run(cx, &space, &cfg);
     // the same space with the groups named a, b, ...: an expression condition such as (?(a)..) must
     // stay an expression even when a group of that name exists
-    let cfg2 = RefCfg { letter_names: true, ..RefCfg { check_span: true, check_groups: true, check_is_match: false, need_scoped: true, filter: Some(has_cond), shadow: false, alphabet: alphabet.clone(), max_len, text_list: None, offset0_only: false, letter_names: false } };
+    let cfg2 = RefCfg { letter_names: true, casei: false, ..RefCfg { check_span: true, check_groups: true, check_is_match: false, need_scoped: true, filter: Some(has_cond), shadow: false, alphabet: alphabet.clone(), max_len, text_list: None, offset0_only: false, letter_names: false, casei: false } };
     let t2 = refsweep::run(cx, &space, &cfg2);
     t.count("letter_named_sweep_programs", t2.programs);
     t.count("letter_named_sweep_evaluations", t2.evaluations);
